@@ -74,6 +74,33 @@ def gen(rng, tier):
         a = "".join(rng.choice(alpha2) for _ in range(rng.randint(n // 2, n)))
         b = "".join(rng.choice(alpha2) for _ in range(rng.randint(n // 2, n)))
         cases.append({"a": a, "b": b, "drive": rng.choice(DRIVES)})
+    # a few hundred characters: accumulated costs and path lengths cross 8-bit limits (128, 255, 256, 512)
+    for i in range(14 if quick else 120):
+        la, lb = rng.choice([(100, 60), (128, 128), (130, 126), (200, 180), (255, 255), (256, 2), (300, 280), (129, 127)])
+        kind = i % 4
+        if kind == 0:      # nothing in common
+            a = "".join(rng.choice("abcdefghijklm") for _ in range(la))
+            b = "".join(rng.choice("nopqrstuvwxyz") for _ in range(lb))
+        elif kind == 1:    # one common character in the middle of otherwise disjoint strings
+            a = "a" * (la // 2) + "M" + "a" * (la - la // 2 - 1)
+            b = "b" * (lb // 2) + "M" + "b" * (lb - lb // 2 - 1)
+        elif kind == 2:    # random over a medium alphabet
+            a = "".join(rng.choice("abcdefghijklmnopqrstuvwxyz") for _ in range(la))
+            b = "".join(rng.choice("abcdefghijklmnopqrstuvwxyz") for _ in range(lb))
+        else:              # a long common run with different ends
+            mid = "".join(rng.choice("xyz") for _ in range(min(la, lb) // 2))
+            a = "a" * ((la - len(mid)) // 2) + mid + "c" * (la - len(mid) - (la - len(mid)) // 2)
+            b = "b" * ((lb - len(mid)) // 2) + mid + "d" * (lb - len(mid) - (lb - len(mid)) // 2)
+        cases.append({"a": a, "b": b, "drive": DRIVES[i % 3]})
+    # the same few distinct non-ASCII characters in another order (sizes measured in code points, not bytes)
+    for a, b in [("\u00e9\u00fc", "\u00fc\u00e9"), ("\u65e5\u672c", "\u672c\u65e5"), ("\u03b1\u03b2\u03b3", "\u03b3\u03b1\u03b2"),
+                 ("\U0001F600\U0001F601x", "x\U0001F601\U0001F600"), ("a\u00e9b\u00fcc", "c\u00fcb\u00e9a")]:
+        cases.append({"a": a, "b": b, "drive": DRIVES[len(cases) % 3]})
+    for _ in range(20 if quick else 300):
+        al = rng.choice(["\u00e9\u00fc\u00e8", "\u65e5\u672c\u8a9e", "\u03b1\u03b2\u03b3\u03b4", "a\u00e9\U0001F600"])
+        a = "".join(rng.choice(al) for _ in range(rng.randint(1, 6)))
+        b = "".join(rng.choice(al) for _ in range(rng.randint(1, 6)))
+        cases.append({"a": a, "b": b, "drive": rng.choice(DRIVES)})
     # a few non-ASCII / special characters
     for a, b in [("é", "e"), ("naïve", "naive"), ("\u0000a", "a\u0000"), ("a\nb", "ab\n"), ("😀x", "x😀"), ("\"q\"", "q")]:
         cases.append({"a": a, "b": b, "drive": "tighten"})
